@@ -81,7 +81,7 @@ class Unsupported(Exception):
 
 # ------------------------------------------------------------------ tokenizer
 
-TOK = re.compile(r'\s*(?:(//[^\n]*)|(0x[0-9a-fA-F_]+|\d[\d_]*)(u8|u32|u64|u128|usize)?|([A-Za-z_][A-Za-z0-9_]*)|(<<=|>>=|::|->|<<|>>|==|!=|<=|>=|&&|\|\||\+=|-=|\*=|\|=|&=|\^=|[-+*/%&|^!<>=(){}\[\],;:.#]))')
+TOK = re.compile(r'\s*(?:(//[^\n]*)|(0x[0-9a-fA-F_]+|\d[\d_]*)(u8|u32|u64|u128|usize)?|([A-Za-z_][A-Za-z0-9_]*)|(<<=|>>=|::|->|<<|>>|==|!=|<=|>=|&&|\|\||\+=|-=|\*=|\|=|&=|\^=|[-+*/%&|^!<>=(){}\[\],;:.#])|("(?:[^"\\\\]|\\\\.)*"))')
 
 
 def tokenize(s):
@@ -99,6 +99,8 @@ def tokenize(s):
             out.append(('num', int(m.group(2).replace('_', ''), 0), m.group(3)))
         elif m.group(4):
             out.append(('id', m.group(4)))
+        elif m.group(6):
+            out.append(('str', m.group(6)))      # a string literal (the message of `.expect("..")`)
         else:
             out.append(('op', m.group(5)))
     return out
@@ -212,6 +214,8 @@ class P:
         tok = self.peek()
         if tok[0] == 'num':
             self.eat(); return ('lit', tok[1], tok[2])
+        if tok[0] == 'str':
+            self.eat(); return ('str', tok[1])
         if tok[0] == 'op' and tok[1] == '(':
             self.eat()
             save, self.nostruct = self.nostruct, False
@@ -817,6 +821,9 @@ class Gen:
                     if not isinstance(ty, int):
                         raise Unsupported('shift of ' + str(ty))
                     s, ts = self.ex(e[3], env)
+                    if ts == 'nat':
+                        # the amount is a loop counter kept as a `Nat` (`shift >> i`, `1 << i` with `i < shift_bits`)
+                        return f'({t} {lop} ({s} % {ty}))', ty
                     if not isinstance(ts, int) or ty >= 2 ** ts:
                         raise Unsupported('shift amount type')
                     return f'({t} {lop} ({s} % {ty}#{ts}))', ty
@@ -873,6 +880,19 @@ class Gen:
             if name == 'overflowing_add':
                 b, tb = self.ex(args[0], env, tr)
                 return f'(({r} + {b}), decide (({r} + {b}) < {r}))', (tr, 'bool')
+            if name == 'expect' and isinstance(tr, tuple) and len(tr) == 2 and tr[1] == 'choice' and len(args) == 1 and args[0][0] == 'str':
+                # `ConstCtOption::expect(msg)`: `assert!(is_some); value` — the translation is the VALUE; that the assertion
+                # holds is a statement about the hand-written model (outer `Option`), proved with the bridge
+                return f'({r}).1', tr[0]
+            if name == 'unwrap_or' and tr == ('uint', 'choice') and len(args) == 1:
+                # `ConstCtOption<Uint>::unwrap_or(def)` is `Uint::select(&def, &self.value, self.is_some)` (src/const_choice.rs)
+                ns, sig = self.lookup('select', 'uint')
+                if sig != (['uint', 'uint', 'choice'], 'uint') or not self.generic:
+                    raise Unsupported('unwrap_or without a translated Uint::select')
+                d, td = self.ex(args[0], env, 'uint')
+                if td != 'uint':
+                    raise Unsupported('unwrap_or default of type ' + str(td))
+                return f'({ns}.select {env[self.generic][0]} {atom(d)} ({r}).1 ({r}).2)', 'uint'
             if name in ('wrapping_shr', 'wrapping_shl') and isinstance(tr, int) and len(args) == 1:
                 # the amount (a `u32`) is masked to the bit width
                 b, tb = self.ex(args[0], env, 32)
@@ -1186,6 +1206,8 @@ class Gen:
             raise Unsupported('loop state')
         state = [v for v in env if v in assigned]
         used = free_vars(rest, [])
+        if self.generic:
+            used.append(self.generic)      # the limb count is not a variable of the Rust text: always passed on
         captured = [v for v in env if v in used and v not in state and v != i]
         if any(env[v][1] == 'lit' for v in captured + state):
             raise Unsupported('loop body uses an untyped counter')
@@ -1266,6 +1288,8 @@ class Gen:
             raise Unsupported('loop bound changes inside the loop')
         state = [v for v in env if v in assigned]
         used = free_vars(rest, []) + free_vars(cond[3], [])
+        if self.generic:
+            used.append(self.generic)      # the limb count is not a variable of the Rust text: always passed on
         captured = [v for v in env if v in used and v not in state and v != i]
         if any(env[v][1] == 'lit' for v in captured):
             raise Unsupported('loop body reads an untyped counter')
@@ -1328,6 +1352,8 @@ class Gen:
         capb = ''.join(f' ({env2[v][0]} : {lean_ty(env2[v][1])})' for v in captured)
         capa = ''.join(f' {env2[v][0]}' for v in captured)
         bound, tb = self.ex(bound_e, env2, 'nat')
+        if isinstance(tb, int) and tb <= 64:
+            bound, tb = f'({bound}).toNat', 'nat'      # a word bound (`while i < shift_bits`, both `u32`): compared as `Nat`s
         if tb != 'nat':
             raise Unsupported('loop bound of type ' + str(tb))
         lines2 = []
@@ -1343,7 +1369,9 @@ class Gen:
                 + f'\n      {self.ns}.{aux}{capa} {nvar} ({ivar} + {step}) ' + ' '.join(env2[s][0] for s in state)
                 + f'\n    else {tup}')
         # the bound as seen from the caller
-        bound_out, _ = self.ex(bound_e, env, 'nat')
+        bound_out, tbo = self.ex(bound_e, env, 'nat')
+        if isinstance(tbo, int):
+            bound_out = f'({bound_out}).toNat'
         return text, aux, capa, bound_out
 
     def body(self, body, env, rty):
@@ -1493,14 +1521,15 @@ FILES = [
     ]),
     # the shift / bit-query layer (C05): word shifts and bit counts of a `Limb`, the limb loops of the `Uint` shifts
     ('Shifts.lean', ['CB.Gen.Prim', None, 'set_option linter.unusedVariables false'], [
-        dict(key='limb_shift', rel=['src/limb/shl.rs', 'src/limb/shr.rs', 'src/limb/bits.rs', 'src/limb/bit_or.rs'],
-             ns='CB.Gen.Shifts.Limb', self_ty='Limb', desc='impl Limb: word shifts, bit counts, bitor',
-             want=['shl', 'shl1', 'shr', 'shr1', 'bits', 'leading_zeros', 'trailing_zeros', 'trailing_ones', 'bitor'], use=['prim']),
-        dict(key='uint_shift', rel=['src/uint/shl.rs', 'src/uint/shr.rs'],
+        dict(key='limb_shift', rel=['src/limb/shl.rs', 'src/limb/shr.rs', 'src/limb/bits.rs', 'src/limb/bit_or.rs', 'src/limb/cmp.rs'],
+             ns='CB.Gen.Shifts.Limb', self_ty='Limb', desc='impl Limb: word shifts, bit counts, bitor, select',
+             want=['shl', 'shl1', 'shr', 'shr1', 'bits', 'leading_zeros', 'trailing_zeros', 'trailing_ones', 'bitor', 'select'], use=['prim']),
+        dict(key='uint_shift', rel=['src/uint/cmp.rs', 'src/uint/shl.rs', 'src/uint/shr.rs'],
              ns='CB.Gen.Shifts.Uint', self_ty='Uint', generic='LIMBS', limb_more=['limb_shift'],
              desc='impl<const LIMBS: usize> Uint<LIMBS>: one-bit, sub-limb and variable-time shifts over the limbs',
-             want=['overflowing_shl1', 'shl_limb', 'shr1', 'shr1_with_carry', 'overflowing_shl_vartime', 'overflowing_shr_vartime',
-                   'shl_vartime', 'shr_vartime', 'wrapping_shl_vartime', 'wrapping_shr_vartime']),
+             want=['select', 'overflowing_shl1', 'shl_limb', 'shr1', 'shr1_with_carry', 'overflowing_shl_vartime', 'overflowing_shr_vartime',
+                   'shl_vartime', 'shr_vartime', 'wrapping_shl_vartime', 'wrapping_shr_vartime',
+                   'overflowing_shl', 'overflowing_shr', 'shl', 'shr', 'wrapping_shl', 'wrapping_shr']),
     ]),
 ]
 
